@@ -21,7 +21,10 @@ B-tree v2 leaf and B-tree v2 header behind the old end of file, the dataset head
 (and the tail of the old, longer header left behind it).  The ~72 KB file travels to Coq as hex pieces and runs of zero bytes;
 Coq evaluates `image_dense_case_ok` (whole-file byte equality).  Independent of the model, Python checks on the library's file
 what the theorem concludes: walking the Attribute Info message -> B-tree header -> leaf records (ascending name hash) -> heap
-ids -> direct block gives exactly the written (name, value) pairs."""
+ids -> direct block gives exactly the written (name, value) pairs.  Generated: 1..30 attributes of all value kinds, names of
+arbitrary bytes (NUL included) with pairwise distinct names and name hashes, 0..4 compact attributes before the transition
+(on a dataset created by CreateDataset the 255-byte header chunk is full before the ninth attribute), one attribute too large
+for the header (dense from the first call on)."""
 import concurrent.futures as cf, os, re, struct, time
 import vlib
 import h5spec
@@ -270,7 +273,7 @@ def gen_dense_cases(rng, n):
                 if k == 14 and rng.random() < 0.3:
                     raw = rand_bytes(rng, rng.choice([20, 60, 200]), pool=b"abcxyz ")
             h = h5spec.lookup3(an)
-            if an in names or h in hashes or b"\0" in an:
+            if an in names or h in hashes:
                 continue
             names.add(an)
             hashes.add(h)
